@@ -3,14 +3,14 @@
 package main
 
 import (
-	"testing/synctest"
-	"strconv"
-	"runtime"
 	"fmt"
 	"os"
+	"runtime"
 	"sort"
+	"strconv"
 	"strings"
 	"sync"
+	"testing/synctest"
 
 	"github.com/oauth2-proxy/oauth2-proxy/v7/pkg/authentication/basic"
 	"github.com/oauth2-proxy/oauth2-proxy/v7/pkg/watcher"
